@@ -213,6 +213,62 @@ def specIntercept (l : List Pt) : Rat := meanY l - specGradient l * meanX l
 /-- squared weighted correlation -/
 def specRsq (l : List Pt) : Rat := N l ^ 2 / (D l * Dy l)
 
+/-! ### weights, stated entry by entry (independent of `weightsFromWeighting`) -/
+
+/-- the smallest entry that is neither zero nor NaN, in one pass (NaN = `none` when there is none) -/
+def leastNonzero : List V → V
+  | [] => none
+  | none :: l => leastNonzero l
+  | some q :: l =>
+    if q = 0 then leastNonzero l
+    else
+      match leastNonzero l with
+      | none => some q
+      | some m => some (if q ≤ m then q else m)
+
+/-- the weight function of a weighting at a finite non-zero value -/
+def wFun (k : Kind) (q : Rat) : Rat :=
+  match k with
+  | .equal => 1
+  | .lin => q
+  | .inv => 1 / q
+  | .inv2 => 1 / (q * q)
+
+/-- weight of one entry `v` of the array `xs` -/
+def specWeight (xs : List V) (k : Kind) (v : V) : V :=
+  if xs.all (·.isNone) then none                     -- nothing but NaN: NaN everywhere
+  else if xs.all (fun u => u == some 0) then some 1  -- nothing but zeros: 1 everywhere ("impossible weighting")
+  else if k = .equal then some 1                     -- `Equal`: 1 everywhere, also at NaN entries
+  else
+    match v with
+    | none => none                                   -- NaN stays NaN
+    | some q =>
+      if q ≠ 0 then some (wFun k q)
+      else (leastNonzero xs).map (wFun k)            -- a zero stands for the smallest non-zero level; NaN if there is none
+
+def specWeights (xs : List V) (k : Kind) : List V := xs.map (specWeight xs k)
+
+/-- the precondition under which no finite entry may get a NaN or infinite weight: some entry is finite
+and not zero (implied by "two distinct concentrations") -/
+def hasNonzero (xs : List V) : Bool := xs.any (fun v => match v with | some q => decide (q ≠ 0) | none => false)
+
+/-- every finite entry has a finite weight -/
+def finiteAtFinite (xs ws : List V) : Bool :=
+  xs.length == ws.length && (List.zip xs ws).all (fun p => p.1.isNone || p.2.isSome)
+
+/-! ### `error`, stated with raw sums -/
+
+/-- the (unweighted) residual variance about the *textbook* line with n − 2 degrees of freedom:
+`(Σy² − 2gΣxy − 2cΣy + g²Σx² + 2gcΣx + n c²) / (n − 2)`, and 0 for n ≤ 2 (as the code defines it) -/
+def specErr2 (l : List Pt) : Rat :=
+  let g := specGradient l
+  let c := specIntercept l
+  if l.length > 2 then
+    (S (fun p => p.y * p.y) l - 2 * g * S (fun p => p.x * p.y) l - 2 * c * S (fun p => p.y) l
+      + g ^ 2 * S (fun p => p.x * p.x) l + 2 * g * c * S (fun p => p.x) l + c ^ 2 * (l.length : Rat))
+      / ((l.length : Rat) - 2)
+  else 0
+
 /-- the hypothesis of the property on the fitted rows: positive weights and two distinct
 concentrations -/
 def fitHyp (l : List Pt) : Bool :=
